@@ -145,7 +145,7 @@ def quick():
         for mk, key in (("response", None), ("header", None), ("data", None), ("request", 7), ("response", 18), ("request", 18)):
             add(mkind=mk, api_key=key, valid="0-3")
             add(mkind=mk, api_key=key, flex="0+")
-    out += special_names() + two_field() + nested_shapes() + api_pairs()
+    out += special_names() + two_field() + nested_shapes() + api_pairs() + name_clashes()
     return out
 
 
@@ -223,6 +223,23 @@ def api_pairs():
         req = make_def("request", "0-2", flex, [F("Topics", "[]WidgetTopic", fields=topic_req), F("Single", "WidgetInfo", fields=[F("Alpha", "int8")])], api_key=9000 + i, name=base)
         res = make_def("response", "0-2", flex, [F("ThrottleTimeMs", "int32"), F("Topics", "[]WidgetTopic", fields=topic_res), F("Single", "WidgetInfo", fields=[F("Beta", "string")])], api_key=9000 + i, name=base)
         out += [req, res]
+    return out
+
+
+def name_clashes():
+    """definitions processed in ONE generator run that share names: the same common-struct name with different
+    bodies in different files (upstream: TopicPartitions), and the api key 0"""
+    out = []
+    F = lambda n, t, **kw: dict({"name": n, "type": t, "versions": "0+"}, **kw)  # noqa: E731
+    bodies = [[F("TopicId", "uuid"), F("Partitions", "[]int32")],
+              [F("TopicId", "uuid"), F("TopicName", "string"), F("Partitions", "[]int32")],
+              [F("Partitions", "[]int32"), F("Epoch", "int32", default="-1")]]
+    for i, body in enumerate(bodies):
+        d = make_def("response", "0-1", "0+", [F("ErrorCode", "int16"), F("Assigned", "[]TopicPartitions"), F("One", "TopicPartitions", versions="1+")], name=f"Clash{i}Group")
+        d["commonStructs"] = [{"name": "TopicPartitions", "versions": "0+", "fields": body}]
+        out.append(d)
+    out.append(make_def("request", "0-1", "1+", [F("Lead", "int8"), F("Name", "string")], api_key=0, name="KeyZero"))
+    out.append(make_def("response", "0-1", "1+", [F("ErrorCode", "int16")], api_key=0, name="KeyZero"))
     return out
 
 
